@@ -555,32 +555,39 @@ def energy_effect_fails():
     import emd.sift as S
     t = np.linspace(0, 1, N)
     x = np.sin(2 * np.pi * 13 * t) + 0.02 * np.sin(2 * np.pi * 3 * t) + 0.01 * t
-    u = {'imf_opts': {'energy_thresh': 40.0, 'sd_thresh': 0.1}, 'envelope_opts': None, 'extrema_opts': None}
     fails = []
-    with warnings.catch_warnings():
-        warnings.simplefilter('ignore')
-        want = explicit_sift(S, x, u, 5)
-        for cap in (5, None):
-            cfg = S.get_config('sift')
-            cfg['max_imfs'] = cap
-            cfg['imf_opts/energy_thresh'] = 40.0
-            cfg['imf_opts/sd_thresh'] = 0.1
-            runs = (('keyword', lambda: S.sift(x, max_imfs=cap, imf_opts=dict(u['imf_opts']))),
-                    ('config', lambda: S.sift(x, **cfg)), ('partial', lambda: cfg.get_func()(x)))
-            for route, f in runs:
-                try:
-                    with common.time_limit(60):
-                        got = f()
-                except Exception as e:                                  # noqa
-                    got = None
-                    detail = 'raised %s: %s' % (type(e).__name__, e)
-                else:
-                    detail = '%d component(s)' % np.asarray(got).shape[1]
-                if got is None or np.asarray(got).shape != want.shape or not np.array_equal(got, want):
-                    fails.append(('emd/sift.py:sift', "imf_opts['energy_thresh'] = 40 supplied by the %s route with max_imfs=%s on a signal whose "
-                                  'first IMF leaves a residual about 67 dB down: %s, the pipeline assembled from get_next_imf (which honours the '
-                                  "stage's stop verdict) gives %d" % (route, cap, detail, want.shape[1]),
-                                  dict(energy_effect=True, route=route, max_imfs=cap)))
+    for thr in (40.0, 0, 0.0):              # 0 is a supplied value too (any energy ratio above 0 dB ends the sift), not "no threshold"
+        u = {'imf_opts': {'energy_thresh': thr, 'sd_thresh': 0.1}, 'envelope_opts': None, 'extrema_opts': None}
+        with warnings.catch_warnings():
+            warnings.simplefilter('ignore')
+            # the reference: get_next_imf WITHOUT the threshold, and the documented energy verdict applied from outside
+            # (20 log10 of the sum of squares of the input over that of input minus IMF, stop when above the threshold)
+            X = x.reshape(-1, 1)
+            first = S.get_next_imf(X, sd_thresh=0.1)[0]
+            num, den = float(np.sum(X ** 2)), float(np.sum((X - first) ** 2))
+            assert den > 0 and 20 * np.log10(num) - 20 * np.log10(den) > 41, 'the probe signal no longer triggers the energy criterion'
+            want = first
+            for cap in (5, None):
+                cfg = S.get_config('sift')
+                cfg['max_imfs'] = cap
+                cfg['imf_opts/energy_thresh'] = thr
+                cfg['imf_opts/sd_thresh'] = 0.1
+                runs = (('keyword', lambda: S.sift(x, max_imfs=cap, imf_opts=dict(u['imf_opts']))),
+                        ('config', lambda: S.sift(x, **cfg)), ('partial', lambda: cfg.get_func()(x)))
+                for route, f in runs:
+                    try:
+                        with common.time_limit(60):
+                            got = f()
+                    except Exception as e:                              # noqa
+                        got = None
+                        detail = 'raised %s: %s' % (type(e).__name__, e)
+                    else:
+                        detail = '%d component(s)' % np.asarray(got).shape[1]
+                    if got is None or np.asarray(got).shape != want.shape or not np.array_equal(got, want):
+                        fails.append(('emd/sift.py:sift', "imf_opts['energy_thresh'] = %r supplied by the %s route with max_imfs=%s on a signal "
+                                      'whose first IMF leaves a residual about 67 dB down: %s, the pipeline assembled from get_next_imf (which '
+                                      "honours the stage's stop verdict) gives %d" % (thr, route, cap, detail, want.shape[1]),
+                                      dict(energy_effect=True, route=route, max_imfs=cap, energy_thresh=thr)))
     return fails
 
 
